@@ -298,6 +298,29 @@ def _(c):
     else:
         c.ensure("otherwise_the_sign_change_test", sym.And(ph1 > 0, bool(res == "BASE")))
 
+
+@contract("C10", "label.StationMaxListener", funcs=[f"{LI}:StationMaxListener.check", f"{LI}:StationMaxListener.__call__", f"{LI}:StationMaxListener.info"],
+          assumptions=["StateVector ADT"])
+def _(c):
+    """culmination events: the watched quantity is the elevation rate; an event labelled MAX is only looked for when the sample that closes the interval is above the horizon
+    and no longer climbing (elevation rate <= 0) -- so that, with the sign change test, the rate went from positive to non-positive: a maximum of elevation, never a minimum"""
+    if not c.symbolic:
+        return
+    ph, pd = c.real("phi_now"), c.real("phi_dot_now")
+
+    def conv(self, frame=None, form=None, same=None):
+        return SymStateVector([1, 0, ph, 0, 0, pd], date=self.date, form="spherical", frame=frame)
+    now = SymStateVector([0] * 6, date=SymDate(0), form="cartesian", frame="EME2000", __convert__=conv)
+    w = c.world(stubs={f"{LI}:Listener.check": lambda self, orb: "BASE"})
+    lis = w.new(f"{LI}:StationMaxListener", types.SimpleNamespace(name="STATION"))
+    c.ensure("watched_quantity", lis(now) == pd)
+    c.ensure("label", bool(lis.info(now).info == "MAX"))
+    res = lis.check(now)
+    if res is False:
+        c.ensure("silent_below_the_horizon_or_while_climbing", sym.Or(ph <= 0, pd > 0))
+    else:
+        c.ensure("otherwise_the_sign_change_test", sym.And(ph > 0, pd <= 0, bool(res == "BASE")))
+
 @contract("C10", "events_iterator", funcs=[f"{LI}:events_iterator", f"{LI}:find_event"])
 def _(c):
     """events_iterator yields exactly the points carrying an event (of the requested kinds), in order; find_event
@@ -438,6 +461,16 @@ def _(c):
     c.ensure("samples_above_horizon_on_grid", ok_s)
     c.ensure("aos_los_zero_elevation", ok_e)
     c.ensure("max_zero_rate", ok_m)
+    # a long, two-humped visibility (Molniya seen from mid latitudes): whatever is labelled MAX is a maximum of elevation (higher than 60 s before and after)
+    mol, _, m0, _T = _mk_orbit("molniya", "kepler")
+    ok_top = True
+    n_max = 0
+    for p in sta.visibility(mol, start=m0, stop=m0 + timedelta(hours=30), step=timedelta(seconds=step * 10), events=True):
+        if p.event is not None and p.event.info == "MAX":
+            n_max += 1
+            el = lambda d: float(mol.propagate(d).copy(frame=sta, form="spherical").phi)
+            ok_top = ok_top and el(p.date) >= el(p.date - timedelta(seconds=60)) and el(p.date) >= el(p.date + timedelta(seconds=60))
+    c.ensure("max_is_a_maximum_of_elevation", ok_top)
     # every above-horizon sample of a plain iteration is in the stream
     plain = [o.copy(frame=sta, form="spherical") for o in orb.iter(start=d0, stop=d0 + timedelta(hours=14), step=timedelta(seconds=step))]
     want = [o.date for o in plain if float(o.phi) >= 0]
